@@ -127,7 +127,6 @@ typing of these trees equals the new one except where stated. -/
 section legacy
 private def lit' (v : Nat) : Expr := .lit .dec .none v
 private def neg' (a : Expr) : Expr := .un .neg a
-open Model.CEvalLegacy in
 -- `int a = 7 % 3;` : KeyError ('%' missing from the operator table); C prescribes 1
 example : Model.CEvalLegacy.initializer .int (render (.bin .mod (lit' 7) (lit' 3))) = .error .KeyError ∧
     Spec.CInt.initBytes .int (.bin .mod (lit' 7) (lit' 3)) = some [1, 0, 0, 0] := by decide +kernel
@@ -156,7 +155,7 @@ example : (Model.CEvalLegacy.elaborate (render (.bin .shl (.lit .dec .u 1) (.lit
     Spec.CInt.typeOf (.bin .shl (.lit .dec .u 1) (.lit .dec .l 1)) = some .uint := by decide +kernel
 example : (Model.CEvalLegacy.elaborate (render (lit' 2147483648))).map TExpr.ty = .ok .uint ∧
     Spec.CInt.typeOf (lit' 2147483648) = some .long := by decide +kernel
-example : Model.CEvalLegacy.elaborate (render (.lit .dec .u 4294967296)) = .error .CompilerError ∧
+example : (Model.CEvalLegacy.elaborate (render (.lit .dec .u 4294967296))).map TExpr.ty = .error .CompilerError ∧
     Spec.CInt.typeOf (.lit .dec .u 4294967296) = some .ulong := by decide +kernel
 example : (Model.CEvalLegacy.elaborate (render (.chr 255))).map TExpr.ty = .ok .char ∧
     Spec.CInt.eval (.chr 255) = some (-1) := by decide +kernel
